@@ -22,7 +22,8 @@ Streams (all choices from the run's PRNG):
           `?=` twice / after `=` / inside a repetition, attribute `parent`, links to
           primitive types / unknown classes / unknown match rules / qualified names,
           `reference` statements, reserved rule names, `import`, `#` on single
-          operands, rules named like base types, bad RREL
+          operands, rules named like base types, bad RREL, a `Comment` rule that is one
+          rule reference (comments model re-read after reference resolution)
   tok:*   token-level mutations of a rendered grammar (drop / duplicate / swap /
           insert a token)
   free    grammars drawn directly from the productions of the grammar language
@@ -32,7 +33,11 @@ Lean side: the text is parsed with the grammar parser of the tree under test
 (`ParserPython(lang.textx_model)`); the parse tree is converted into the typed
 tree of `GramLoad.Grammar` (shape violations are reported, never patched) and
 `GramLoad.compile` / `GramLoad.outcomes` give the outcome class
-(Drivers/GramLoad.lean, op grammar_outcome).  Whether a regex compiles (and the
+(Drivers/GramLoad.lean, op grammar_outcome; the answer also carries the syntactic
+conditions of C23_classified — `bad_param`, `unregistered` — which `compare` holds
+against the implementation's outcome: a TextXError needs the first, a
+TextXRegistrationError the second).  One extra case (`isa-table`) compares the
+exception subclass table of the model (`PyExc.isa`) with `issubclass`.  Whether a regex compiles (and the
 class of the exception the regex engine raises when it does not: `re.error`,
 OverflowError, RecursionError, ValueError, …) and whether the escapes of a string
 decode is decided here with `re` / `codecs` (not through textX) and passed along.
@@ -1370,19 +1375,19 @@ class Prop(Check):
     PROCS_QUICK = min(2, int(os.environ.get("VERIF_PROCS", "2")))
     PROCS_THOROUGH = int(os.environ.get("VERIF_PROCS", "4"))
     CASE_TIMEOUT = 20
-    RULE = ("grammar texts: valid generated grammars (gen_grammar), 1-3 AST-level mutations of them (20 operators: undefined / "
+    RULE = ("grammar texts: valid generated grammars (gen_grammar), 1-3 AST-level mutations of them (21 operators: undefined / "
             "dropped / duplicated rules, alias cycles, alias graphs (single-reference rules forming random functional graphs: "
             "tails into cycles, several tails, chains into real / base / undefined rules; entered from the root rule, from "
             "references in every syntactic position, or not at all), rule references redirected to arbitrary rules (recursion through ordinary and abstract rules), regexes drawn from the productions of the regex syntax "
             "(valid or with one of 16 flaws, repetition bounds of every magnitude up to 10**30, nesting beyond the interpreter "
             "stack) in every place a regex match can stand, generated string escapes, bad rule parameters and modifiers, bool "
-            "assignments, `parent`, links, reference statements, reserved names, import, `#`, base-type names, nesting), "
+            "assignments, `parent`, links, reference statements, reserved names, import, `#`, base-type names, nesting, Comment rule as a rule reference), "
             "token-level mutations, and grammars drawn from the productions of the grammar language; non-trivial = the text "
             "gets past the grammar parser and the visitor or the second pass reports an error (an error path inside "
             "lang.py / metamodel.py is exercised)")
     MODELLED = ("hand-modelled: TextXVisitor first pass (rule names, rule params, string / regex matches, obj refs, assignments, "
                 "repeat operators, textx_rule incl. _update_attr_multiplicities, import / reference statements), second pass "
-                "(_resolve_rule_refs with alias chains, attribute reads of _determine_rule_types, _resolve_cls_refs, "
+                "(_resolve_rule_refs with alias chains, the two reads of the comments model, attribute reads of _determine_rule_types, _resolve_cls_refs, "
                 "TextXMetaModel.__getitem__/__contains__) in an explicit error monad (GramLoad.lean); inputs of the model computed "
                 "by Python itself: the parse tree (grammar parser of the tree under test), re.compile outcome of every regex literal "
                 "(compiles, or the class of the exception the regex engine raises: re.error / OverflowError / RecursionError / "
@@ -1391,7 +1396,8 @@ class Prop(Check):
     ASSUMPTIONS = [
         "the typed tree GramLoad.Grammar is the shape of the parse trees of lang.textx_model (the converter rejects any other shape)",
         "re.compile raises only subclasses of Exception (the model covers every class: C23_regex_any_exception), "
-        "codecs.decode only ValueError subclasses; Python warnings are not turned into errors",
+        "codecs.decode only ValueError subclasses; Python warnings are not turned into errors; the subclass table the "
+        "handler specs use (PyExc.isa, C23_handlers_spec) is compared with issubclass of the running interpreter on every run",
         "metamodel_from_str is called with a str and no file_name, classes, or debug",
         "CPython recursion limit is not reached (nesting depth of generated grammars <= 40; deeper: known finding KF-C23-1; "
         "chains of rule references of generated grammars <= 20 rules; some hundred: known finding KF-C23-2)",
